@@ -10,6 +10,7 @@ which side is wrong.
 """
 from __future__ import annotations
 
+import itertools
 import json
 import re
 import warnings
@@ -67,6 +68,24 @@ def gen_case(rng):
                 by[spec["name"]]["vals"][rng.randrange(D["nrows"])] = A.NULL
     c["opts"] = {}
     return c
+
+
+def small_scope_cases():
+    """every column of up to four values over {two values, null} under every combination of nullable / unique — the part of
+    the space where uniqueness, nullability and missing values interact, enumerated rather than sampled"""
+    out = []
+    for dtype in ("float64", "str"):
+        pool = A.POOL[dtype][:2] + [A.NULL]
+        for n in range(1, 5):
+            for vals in itertools.product(pool, repeat=n):
+                for nullable, unique in ((True, True), (False, True), (True, False)):
+                    spec = {"name": "a", "regex": None, "dtype": dtype, "nullable": nullable, "unique": unique, "required": True,
+                            "coerce": False, "reportDup": "none", "checks": [], "default": None}
+                    S = {"columns": [spec], "index": None, "strict": "no", "ordered": False, "unique": [], "reportDup": "none",
+                         "coerce": False, "addMissing": False, "dropInvalid": False}
+                    D = {"cols": [{"name": "a", "dtype": dtype, "vals": list(vals)}], "index": A.default_index(n), "nrows": n}
+                    out.append({"schema": S, "frame": D, "opts": {}, "small_scope": True})
+    return out
 
 
 def kind_of(check) -> str:
@@ -458,7 +477,7 @@ def run(tier, replay=None):
             run_cases(rep, [case])
         return rep.finish(rule="replay")
     n = 700 if tier == "quick" else 25000
-    run_cases(rep, corpus_cases(PROP) + [gen_case(rng) for _ in range(n)])
+    run_cases(rep, corpus_cases(PROP) + small_scope_cases() + [gen_case(rng) for _ in range(n)])
     try:
         builtin_sweep(rep, rng, 300 if tier == "quick" else 8000)
         anchoring_sweep(rep, rng, 60 if tier == "quick" else 1500)
